@@ -558,6 +558,10 @@ def rules(ctx):
     r6_at_least_one_visit(ctx)
     r7_options_reach_param_study(ctx)
     r8_table_ages_keyed_by_their_own_id(ctx)
+    # whether a design is accepted depends on the design alone: the tables of requirements / defaults of the class are never written
+    # (same rule as C13.R5, restricted to the simulation package)
+    from .c13 import r5_shared_defaults
+    r5_shared_defaults(ctx, rid="C18.R9", scope="leaspy.algo.simulate", title="the class-level tables of requirements are never written (a design is judged on its own, not on earlier calls)")
     ctx.trust("isinstance / `in` semantics; the shipped default_simulate.json provides the top-level keys")
 
 
